@@ -16,6 +16,7 @@ import GIV.Lemmas.TsRunUpdate
 import GIV.Lemmas.TsRunCmds
 import GIV.Lemmas.TsRunCmdsUpdate
 import GIV.Lemmas.TxtarQuote
+import GIV.Lemmas.TsRunRerun
 
 namespace GIV.C16
 open GIV GIV.Txtar GIV.TsRun GIV.TsRun.Update
@@ -272,5 +273,166 @@ example : parse (bs "cmp stdout g\n-- g --\nold\n") = some ⟨bs "cmp stdout g\n
   · exact ⟨by decide +kernel, by decide +kernel⟩
   · intro h; exact absurd h.1 (by decide +kernel)
   · intro h; exact absurd h.2 (by decide +kernel)
+
+/-! ### the fix-point for a whole run
+
+Setting: GIV.Lemmas.TsRunRerun — the skeleton `run` of GIV.Model.Script instantiated with a state
+split into `base` (everything but the golden entries), `gold` (the extracted archive entries),
+`updates` (ts.scriptUpdates) and a ghost `log` of the comparisons against archive entries; `cmp` is
+`doCmp`; every other command, the tokenizer and the conditions are arbitrary deterministic functions
+of the base state that leave the other three alone (`Rerun.Frame`).  `Rerun.runFile c read upd b file`
+= parse, loop, deferred applyScriptUpdates. -/
+
+open GIV.TsRun.Rerun in
+/-- **Whole-run fix-point.**  Run 1 = the script file under UpdateScripts from base state `b`,
+*whatever its verdict* (the rewrite is deferred: it also happens when a later line fails, and the
+verdict stays what the loop made it).  If all its comparisons against archive entries were plain
+`cmp`s, every entry always met the same actual text, and every content finally recorded is
+representable, then run 2 = the rewritten file without UpdateScripts from the same base state:
+parses, does at every line what run 1 did (same verdict, same reported line, same calls, same final
+base state, same comparisons), records no update and leaves the file byte-identical.
+Entry names need not be distinct. -/
+theorem rerun_whole_run_fixpoint {τ : Type} (c : Config (Rerun.St τ)) (hF : Frame c) (read : CmpRead τ) (b : τ)
+    (file : Bytes) (o1 : RunOut τ)
+    (h1 : runFile c read true b file = some o1)
+    (hplain : ∀ e ∈ o1.res.state.log, e.neg = false)
+    (hsame : SameText o1.res.state.log)
+    (hrep : ∀ n t, lookupU o1.res.state.updates n = some t → Representable t) :
+    o1.verdict = o1.res.verdict ∧
+    ∃ o2, runFile c read false b o1.file = some o2 ∧
+      o2.file = o1.file ∧ o2.verdict = o1.verdict ∧ o2.res.state.updates = [] ∧
+      o2.res.verdict = o1.res.verdict ∧ o2.res.reported = o1.res.reported ∧ o2.res.calls = o1.res.calls ∧
+      o2.res.lineno = o1.res.lineno ∧ o2.res.state.base = o1.res.state.base ∧
+      o2.res.state.log = o1.res.state.log := by
+  have : FLen := ⟨rfl⟩
+  have : FCR := ⟨rfl⟩
+  have : FLit := ⟨rfl, rfl⟩
+  have : FNQ := ⟨rfl⟩
+  exact rerun_whole_script cmp_facts apply_facts c hF read b file o1 h1 hplain hsame hrep
+
+open GIV.TsRun.Rerun in
+/-- … in the words of the property: run 1 passes, every golden entry is compared at most once →
+run 2 passes, records nothing, and the file is unchanged. -/
+theorem rerun_whole_run_passes {τ : Type} (c : Config (Rerun.St τ)) (hF : Frame c) (read : CmpRead τ) (b : τ)
+    (file : Bytes) (o1 : RunOut τ)
+    (h1 : runFile c read true b file = some o1) (hpass : o1.verdict = .pass)
+    (hplain : ∀ e ∈ o1.res.state.log, e.neg = false)
+    (honce : AtMostOnce o1.res.state.log)
+    (hrep : ∀ n t, lookupU o1.res.state.updates n = some t → Representable t) :
+    ∃ o2, runFile c read false b o1.file = some o2 ∧ o2.verdict = .pass ∧ o2.file = o1.file ∧
+      o2.res.state.updates = [] ∧ o2.res.reported = o1.res.reported ∧ o2.res.calls = o1.res.calls := by
+  obtain ⟨_, o2, h2, hf, hv, hu, _, hr, hc, _⟩ :=
+    rerun_whole_run_fixpoint c hF read b file o1 h1 hplain (sameText_of_atMostOnce honce) hrep
+  exact ⟨o2, h2, by rw [hv, hpass], hf, hu, hr, hc⟩
+
+open GIV.TsRun.Rerun GIV.TsRun.Rerun.Demo in
+/-- non-vacuity: a command producing output and two comparisons, `g` stale and `h` up to date — the
+hypotheses hold (two entries, each compared once), so the rewritten file passes and stays -/
+example : ∃ o2, runFile cfg read false [] (bs "out new\ncmp stdout g\ncmp stdout h\n-- g --\nnew\n-- h --\nnew\n") = some o2 ∧
+    o2.verdict = .pass ∧ o2.file = bs "out new\ncmp stdout g\ncmp stdout h\n-- g --\nnew\n-- h --\nnew\n" := by
+  have hv : view (runFile cfg read true [] (bs "out new\ncmp stdout g\ncmp stdout h\n-- g --\nold\n-- h --\nnew\n")) =
+      some ⟨.pass, bs "out new\ncmp stdout g\ncmp stdout h\n-- g --\nnew\n-- h --\nnew\n", none,
+        [(bs "g", bs "new\n")], [⟨false, bs "g", bs "new\n"⟩, ⟨false, bs "h", bs "new\n"⟩]⟩ := by decide +kernel
+  cases h1 : runFile cfg read true [] (bs "out new\ncmp stdout g\ncmp stdout h\n-- g --\nold\n-- h --\nnew\n") with
+  | none => rw [h1] at hv; simp [view] at hv
+  | some o1 =>
+    rw [h1] at hv
+    simp only [view, Option.map_some, Option.some.injEq, View.mk.injEq] at hv
+    obtain ⟨hverd, hfile, _, hupd, hlog⟩ := hv
+    have hplain : ∀ e ∈ o1.res.state.log, e.neg = false := by rw [hlog]; decide
+    have honce : AtMostOnce o1.res.state.log := by rw [hlog]; unfold AtMostOnce; decide +kernel
+    have hrep : ∀ n t, lookupU o1.res.state.updates n = some t → Representable t := by
+      intro n t h
+      rw [hupd] at h
+      simp only [lookupU] at h
+      split at h
+      · simp at h; subst h; exact ⟨by decide +kernel, by decide +kernel⟩
+      · simp at h
+    obtain ⟨o2, h2, hp, hf, _⟩ := rerun_whole_run_passes cfg frame read [] _ o1 h1 hverd hplain honce hrep
+    rw [hfile] at h2 hf
+    exact ⟨o2, h2, hp, hf⟩
+
+open GIV.TsRun.Rerun GIV.TsRun.Rerun.Demo in
+/-- `SameText` is needed (closed counterexample): one golden entry compared with two different outputs.
+Run 1 passes and stores the last output; run 2 fails at the first comparison (line 2); the recorded
+content is representable.  (GIV.Lemmas.TsRunRerun has two more: a negated `cmp` against an updated
+entry, and an output that needs quoting.) -/
+example :
+    view (runFile cfg read true [] (bs "out a\ncmp stdout g\nout b\ncmp stdout g\n-- g --\nold\n")) =
+      some ⟨.pass, bs "out a\ncmp stdout g\nout b\ncmp stdout g\n-- g --\nb\n", none,
+        [(bs "g", bs "b\n")], [⟨false, bs "g", bs "a\n"⟩, ⟨false, bs "g", bs "b\n"⟩]⟩ ∧
+    Representable (bs "b\n") ∧
+    ¬ SameText [⟨false, bs "g", bs "a\n"⟩, ⟨false, bs "g", bs "b\n"⟩] ∧
+    view (runFile cfg read false [] (bs "out a\ncmp stdout g\nout b\ncmp stdout g\n-- g --\nb\n")) =
+      some ⟨.fail, bs "out a\ncmp stdout g\nout b\ncmp stdout g\n-- g --\nb\n", some 2,
+        [], [⟨false, bs "g", bs "a\n"⟩]⟩ := by
+  refine ⟨by decide +kernel, ⟨by decide +kernel, by decide +kernel⟩, ?_, by decide +kernel⟩
+  intro h
+  have := h ⟨false, bs "g", bs "a\n"⟩ (by simp) ⟨false, bs "g", bs "b\n"⟩ (by simp) rfl
+  revert this
+  decide +kernel
+
+open GIV.TsRun.Rerun in
+/-- … line by line: if every line of run 1 ends ok, every line of run 2 ends ok (`okFold`), in the
+same base state, with nothing recorded. -/
+theorem rerun_whole_run_every_line {τ : Type} (c : Config (Rerun.St τ)) (hF : Frame c) (read : CmpRead τ) (b : τ)
+    (file : Bytes) (o1 : RunOut τ) (a : Archive) (s1' : Rerun.St τ)
+    (h1 : runFile c read true b file = some o1) (hp : parse file = some a)
+    (hok : okFold (withCmp c read true) ⟨b, a.files, [], []⟩ (splitScript a.comment) = some s1')
+    (hplain : ∀ e ∈ s1'.log, e.neg = false)
+    (hsame : SameText s1'.log)
+    (hrep : ∀ n t, lookupU s1'.updates n = some t → Representable t) :
+    o1.res.state = s1' ∧ o1.verdict = .pass ∧
+    ∃ a' s2', parse o1.file = some a' ∧ a'.comment = a.comment ∧
+      okFold (withCmp c read false) ⟨b, a'.files, [], []⟩ (splitScript a'.comment) = some s2' ∧
+      s2'.base = s1'.base ∧ s2'.updates = [] ∧ s2'.log = s1'.log := by
+  have : FLen := ⟨rfl⟩
+  have : FCR := ⟨rfl⟩
+  have : FLit := ⟨rfl, rfl⟩
+  have : FNQ := ⟨rfl⟩
+  exact rerun_every_line_ok cmp_facts apply_facts c hF read b file o1 a s1' h1 hp hok hplain hsame hrep
+
+open GIV.TsRun.Rerun GIV.TsRun.Rerun.Demo in
+example : ∃ s1', okFold (withCmp cfg read true)
+      ⟨[], [⟨bs "g", bs "old\n"⟩, ⟨bs "h", bs "new\n"⟩], [], []⟩ (splitScript (bs "out new\ncmp stdout g\ncmp stdout h\n")) = some s1' ∧
+    s1'.log = [⟨false, bs "g", bs "new\n"⟩, ⟨false, bs "h", bs "new\n"⟩] ∧ s1'.updates = [(bs "g", bs "new\n")] := by
+  refine ⟨⟨bs "new\n", [⟨bs "g", bs "old\n"⟩, ⟨bs "h", bs "new\n"⟩], [(bs "g", bs "new\n")],
+    [⟨false, bs "g", bs "new\n"⟩, ⟨false, bs "h", bs "new\n"⟩]⟩, ?_, rfl, rfl⟩
+  decide +kernel
+
+open GIV.TsRun.Rerun in
+/-- What happens to recorded updates when a LATER line fails: `defer ts.applyScriptUpdates()` runs on
+every exit of `run` once `setup` has returned, so they are written all the same, and the verdict
+stays the loop's (here: whatever it is). -/
+theorem rewrite_despite_later_failure {τ : Type} (c : Config (Rerun.St τ)) (read : CmpRead τ) (upd : Bool) (b : τ)
+    (file : Bytes) (o : RunOut τ) (a a' : Archive)
+    (h : runFile c read upd b file = some o) (hp : parse file = some a)
+    (hu : o.res.state.updates ≠ []) (happly : applyUpdates a o.res.state.updates = .ok a') :
+    o.file = format a' ∧ o.verdict = o.res.verdict ∧ Gen.TsRunUpdate.applyDeferredAfterSetup = true :=
+  ⟨(runFile_rewrites apply_facts c read upd b file o a a' h hp hu happly).1,
+   (runFile_rewrites apply_facts c read upd b file o a a' h hp hu happly).2, rfl⟩
+
+open GIV.TsRun.Rerun GIV.TsRun.Rerun.Demo in
+/-- line 3 is an unknown command: the run fails there, `g` has been rewritten nevertheless -/
+example :
+    view (runFile cfg read true [] (bs "out a\ncmp stdout g\nbogus\n-- g --\nold\n")) =
+      some ⟨.fail, bs "out a\ncmp stdout g\nbogus\n-- g --\na\n", some 3, [(bs "g", bs "a\n")], [⟨false, bs "g", bs "a\n"⟩]⟩ := by
+  decide +kernel
+
+/-- The quoted case.  Content with a marker line is stored as `Quote(c)` (`apply_sets`), which is not
+`c`: the re-run's comparison of the same output against the entry fails; it is equal again after
+`unquote` — a command that rewrites the extracted golden file, so such a script is outside the class
+of `rerun_whole_run_fixpoint` (in the Demo class the re-run fails: see GIV.Lemmas.TsRunRerun). -/
+theorem quoted_entry_needs_unquote {c q : Bytes} (hnq : needsQuote c = some true) (hq : quote c = .ok q)
+    (env : Bool) (e : Option Bytes) :
+    q ≠ c ∧ doCmp ⟨false, env, false, c, q, e⟩ = .fatal ∧
+      unquote q = .ok c ∧ doCmp ⟨false, env, false, c, c, e⟩ = .ok := by
+  have : FLen := ⟨rfl⟩
+  have : FLit := ⟨rfl, rfl⟩
+  have : FNQ := ⟨rfl⟩
+  exact Rerun.quoted_entry_mismatch cmp_facts hnq hq env e
+
+example : needsQuote (bs "-- x --\n") = some true ∧ quote (bs "-- x --\n") = .ok (bs ">-- x --\n") := by
+  decide +kernel
 
 end GIV.C16
